@@ -1,9 +1,13 @@
 /-
 C13 — a saved file is exactly the global settings plus the emitted trees.
+
+`fileContent` (Model/Scad.lean) is the model of what the five `scad_file!` arms and `Scad::save`
+write; the correspondence run reads the real files back and compares them byte for byte.  The
+theorems below are about that content for every setting, every value and every list of trees.
 -/
-import ScadVerif.Spec.OpenScadBind
+import ScadVerif.Props.C01
 namespace ScadVerif.C13
-open ScadVerif
+open ScadVerif ScadVerif.Spec ScadVerif.ParserLemmas
 
 variable {ν : Type} (showNum : ν → List Char)
 
@@ -19,5 +23,73 @@ theorem fileContent_append (g : Settings ν) (a b : List (Scad ν)) :
 /-- without settings nothing precedes the children -/
 theorem fileContent_none (cs : List (Scad ν)) : fileContent showNum .none cs = emitAll showNum cs := by
   simp [fileContent, Settings.lines]
+
+/-- the assignments a `scad_file!` form writes before the children -/
+def settingTops : Settings ν → List Top
+  | .none => []
+  | .fa a => [.assign c!"$fa" (.num (showNum a))]
+  | .fs s => [.assign c!"$fs" (.num (showNum s))]
+  | .faFs a s => [.assign c!"$fa" (.num (showNum a)), .assign c!"$fs" (.num (showNum s))]
+  | .fn n => [.assign c!"$fn" (.num (natDigits n))]
+
+/-- **C13.** For every `scad_file!` form, setting value and list of well-formed trees, the file
+content parses as an OpenSCAD program: one assignment per global setting given, with the exact
+printed value, followed by exactly the children as top-level statements in the written order — and
+nothing else (the parser consumes the whole content). -/
+theorem fileContent_parses (hnum : ∀ x, IsNumeral (showNum x) = true) (g : Settings ν)
+    (children : List (Scad ν)) (hwf : ∀ t ∈ children, C01.WellFormed showNum t) :
+    parseFile (fileContent showNum g children) =
+      some (settingTops showNum g ++ children.map fun t => Top.stmt (toStmt showNum t)) := by
+  have hok : ∀ t ∈ children, TreeOK showNum t :=
+    fun t ht => C01.treeOK_of_wellFormed showNum hnum t (hwf t ht)
+  have hlen := length_le_emitAll showNum children hok
+  have hfa : IsIdent c!"$fa" = true := by decide
+  have hfs : IsIdent c!"$fs" = true := by decide
+  have hfn : IsIdent c!"$fn" = true := by decide
+  have tail : ∀ k, children.length < k →
+      pFileAux k ('\n' :: emitAll showNum children) =
+        some (children.map fun t => Top.stmt (toStmt showNum t)) :=
+    fun k hk => pFileAux_emitAll showNum children k hok hk ['\n'] (by decide)
+  cases g with
+  | none =>
+    have := pFileAux_emitAll showNum children ((emitAll showNum children).length + 1) hok (by omega) []
+      (by decide)
+    simpa [parseFile, fileContent, Settings.lines, settingTops] using this
+  | fa a =>
+    have e : fileContent showNum (.fa a) children =
+        [] ++ (c!"$fa" ++ '=' :: (showNum a ++ ';' :: '\n' :: emitAll showNum children)) := by
+      simp [fileContent, Settings.lines]
+    rw [parseFile, e, pFileAux_assign_step _ [] _ _ _ (by decide) hfa (hnum a), tail]
+    · rfl
+    · simp only [List.length_append, List.length_cons]; omega
+  | fs a =>
+    have e : fileContent showNum (.fs a) children =
+        [] ++ (c!"$fs" ++ '=' :: (showNum a ++ ';' :: '\n' :: emitAll showNum children)) := by
+      simp [fileContent, Settings.lines]
+    rw [parseFile, e, pFileAux_assign_step _ [] _ _ _ (by decide) hfs (hnum a), tail]
+    · rfl
+    · simp only [List.length_append, List.length_cons]; omega
+  | fn n =>
+    have e : fileContent showNum (.fn n) children =
+        [] ++ (c!"$fn" ++ '=' :: (natDigits n ++ ';' :: '\n' :: emitAll showNum children)) := by
+      simp [fileContent, Settings.lines]
+    rw [parseFile, e, pFileAux_assign_step _ [] _ _ _ (by decide) hfn (natDigits_numeral n), tail]
+    · rfl
+    · simp only [List.length_append, List.length_cons]; omega
+  | faFs a b =>
+    have e : fileContent showNum (.faFs a b) children =
+        [] ++ (c!"$fa" ++ '=' :: (showNum a ++ ';' :: (['\n'] ++ (c!"$fs" ++ '=' :: (showNum b ++ ';' :: '\n' ::
+          emitAll showNum children))))) := by
+      simp [fileContent, Settings.lines]
+    have hl : (fileContent showNum (.faFs a b) children).length =
+        (showNum a).length + (showNum b).length + (emitAll showNum children).length + 12 := by
+      simp [fileContent, Settings.lines]; omega
+    rw [parseFile, hl, e]
+    rw [show (showNum a).length + (showNum b).length + (emitAll showNum children).length + 12 + 1 =
+      ((showNum a).length + (showNum b).length + (emitAll showNum children).length + 11) + 1 + 1 from rfl]
+    rw [pFileAux_assign_step _ [] _ _ _ (by decide) hfa (hnum a),
+      pFileAux_assign_step _ ['\n'] _ _ _ (by decide) hfs (hnum b), tail]
+    · rfl
+    · omega
 
 end ScadVerif.C13
